@@ -106,7 +106,7 @@ func init() {
 		ID: "C01", Engine: "E1", Level: "exploration",
 		Gen: genC01, Exec: execC01,
 		Runs:      map[string]int{"quick": 200000, "thorough": 6000000},
-		Rule:      "seeded traces of 1-4 datasets (type x rank 1-4 x extents x layout x chunk shape x superblock version x data class), written, restarted (Close/Open, or Close/OpenForWrite+overwrite), read back through every typed read; non-trivial = at least one dataset was written and its values compared after the restart; distinct by (superblock version, multiset of (type, rank, chunk-divides?, filters))",
+		Rule:      "seeded traces of 1-4 datasets (type x rank 1-4 x extents x layout x chunk shape x superblock version x data class; compounds of 1-4 numeric members in the version 3 or, 30%, the version 1 datatype encoding, member names of 2 or 7/8/9/15/16/24 bytes), written, restarted (Close/Open, or Close/OpenForWrite+overwrite), read back through every typed read; non-trivial = at least one dataset was written and its values compared after the restart; distinct by (superblock version, multiset of (type, rank, chunk-divides?, filters))",
 		Technique: "deterministic simulation: seeded write/restart/read histories against a reference model over the simulated disk",
 		Assumptions: []string{"restart = Close then fresh Open; the simulated disk does not model loss of unsynced writes",
 			"typed reads that return an error are accepted (statement: 'where no typed read exists the library reports an error')"},
@@ -216,7 +216,7 @@ func init() {
 		ID: "C02", Engine: "E1", Level: "exploration",
 		Gen: genC02, Exec: execC02,
 		Runs:      map[string]int{"quick": 150000, "thorough": 4000000},
-		Rule:      "seeded histories of WriteAttribute/DeleteAttribute (1-300 calls, 4-24 names incl. 200-byte and UTF-8 names, all scalar kinds, strings 0-300 bytes, 1-D slices 1-64) on 1-3 objects with Close/OpenForWrite restarts inside the history; after every restart the attribute map read back must equal the model map; non-trivial = >=3 successful mutations and an attribute map verified after a restart; distinct by (superblock version, restarts, sequence of first 24 successful op kinds, storage classes verified)",
+		Rule:      "seeded histories of WriteAttribute/DeleteAttribute (1-300 calls, 4-24 names incl. 200-byte and UTF-8 names and equal-length siblings that differ in one byte at index 11 or 23, all scalar kinds, strings 0-300 bytes, 1-D slices 1-64) on 1-3 objects with Close/OpenForWrite restarts inside the history; after every restart the attribute map read back must equal the model map; non-trivial = >=3 successful mutations and an attribute map verified after a restart; distinct by (superblock version, restarts, sequence of first 24 successful op kinds, storage classes verified)",
 		Technique: "deterministic simulation: seeded attribute histories with restarts vs map model over a simulated disk",
 		Assumptions: []string{"a call that returns an error leaves the model unchanged ('last successful write wins')",
 			"DeleteAttribute of an absent name may succeed or fail; either way the map is unchanged"},
